@@ -300,6 +300,9 @@ func runC08(c *Check) {
 	fHashes := c.P.Field("spynode", "Node", "pushDataHashes")
 	fContracts := c.P.Field("spynode", "Node", "sendContracts")
 	if fHashes == nil || fContracts == nil {
+		if fContracts == nil {
+			c.ruleContractSubscriptionIsFlag("R16") // what the subscription is kept in now
+		}
 		c.Undecided("R0", "anchor:spynode.Node fields", token.NoPos, "pushDataHashes/sendContracts not found")
 		return
 	}
@@ -631,6 +634,7 @@ func runC08(c *Check) {
 	c.ruleEveryOutputParsed("R11")
 	c.ruleRelevanceScansEverything("R13", "R14")
 	c.ruleSubscriptionHashProvenance("R15")
+	c.ruleContractSubscriptionIsFlag("R16")
 
 	// ---- R4 who may write
 	nW := 0
